@@ -10,7 +10,7 @@ from vf import common, chart as C, trace as T, xform, c01lib, refscxml, tables
 from vf.common import Check
 from vf.checks.c01 import NONTRIVIAL
 
-TOK = re.compile(r'Establishing optimal transition set for event (\d+)|Exiting state (\d+)|Entering state (\d+)|Taking transition (\d+)|([NXTHIZPD]\d+): (-?\d+)|Found (NO) transitions|Machine (finished)|(Entering initial default completion)')
+TOK = re.compile(r'Establishing optimal transition set for event (\d+)|Exiting state (\d+)|Entering state (\d+)|Taking transition (\d+)|((?:[NXTHIZPD]|R[FVIE])\d+): (-?\d+)|Found (NO) transitions|Machine (finished)|(Entering initial default completion)')
 
 
 def make_case(seed):
@@ -21,7 +21,7 @@ def make_case(seed):
         ch.data = {}
         hist = hist[:5]
     else:
-        ch, hist = C.gen_chart(seed, data=True, errors=False)
+        ch, hist = C.gen_chart(seed, data=True, errors=False, rich=True)
     # the external history is sent by the document itself, once, from the first state entered by default
     first = ch.root.states()[0] if not ch.root.initial_attr else ch.by_id[ch.root.initial_attr[0]]
     ch.data['g'] = 0
@@ -75,7 +75,8 @@ def proj_interp(psteps, dm='promela'):
     for s in psteps:
         ev = s.get('ev')
         if ev == '#outside': continue
-        acts = tuple(a if a[0] != 'log' else ('log', a[1], a[2]) for a in s['acts'])
+        # a <log> without expr prints nothing in the model (RV: _event.name is rendered for lua only)
+        acts = tuple(a if a[0] != 'log' else ('log', a[1], a[2]) for a in s['acts'] if not (a[0] == 'log' and (a[2] is None or a[1].startswith('RV'))))
         if ev == '#completion':
             # the model runs the exit handlers of the final configuration right after the step that entered the top-level final
             if out: out[-1] = (out[-1][0], out[-1][1] + tuple(a for a in acts if a[0] == 'log'))
